@@ -318,7 +318,7 @@ impl Prop for C05 {
     fn assumptions(&self) -> Vec<&'static str> {
         vec![
             "std RandomState draws its per-thread keys through the interposable getrandom symbol (canary checked on every batch)",
-            "allocation addresses are not an input of any rendering decision (no pointer-keyed or pointer-ordered collection in /repo; not varied by the simulator)",
+            "allocation addresses are varied (each replica thread starts with its own pattern of live allocations) but not controlled; hash entropy, thread history and log level are controlled",
         ]
     }
 }
